@@ -9,6 +9,8 @@ import (
 	"k8s.io/klog/v2"
 
 	"github.com/vmware/go-ipfix/pkg/registry"
+
+	"verifharness/colmodel"
 )
 
 type checkFn func(tier string, replay string) int
@@ -32,6 +34,7 @@ func main() {
 	klog.SetOutput(discard{})
 	klog.LogToStderr(false)
 	registry.LoadRegistry()
+	colmodel.SnapshotRegistry([]uint32{0, registry.IANAReversedEnterpriseID, registry.AntreaEnterpriseID})
 	id := os.Args[1]
 	fn, ok := checks[id]
 	if !ok {
